@@ -93,7 +93,7 @@ FORMULAS = {
     'F1': '=DATE(A1,B1,C1)', 'F2': '=YEAR(DATE(A1,B1,C1))', 'F3': '=MONTH(DATE(A1,B1,C1))', 'F4': '=DAY(DATE(A1,B1,C1))',
     'F5': '=DATEDIF(D1,D2,"M")', 'F6': '=DATEDIF(D1,D2,"D")', 'F7': '=DATEDIF(D1,D2,"Y")', 'F8': '=DATEDIF(D1,D2,"YM")',
     'F9': '=EDATE(D1,B1)', 'F10': '=EOMONTH(D1,B1)', 'F11': '=NETWORKDAYS(D1,D2)', 'F12': '=NETWORKDAYS(D1,D2,E1:E2)',
-    'F13': '=YEAR(D1)', 'F14': '=MONTH(D1)', 'F15': '=DAY(D1)',
+    'F13': '=YEAR(D1)', 'F14': '=MONTH(D1)', 'F15': '=DAY(D1)', 'F16': '=NETWORKDAYS(D1,D2,E1:E4)', 'F17': '=NETWORKDAYS(D1,D2,E1:E1)',
 }
 CONSTS = {'A1': 2024, 'B1': 1, 'C1': 1, 'D1': datetime.datetime(2024, 1, 1), 'D2': datetime.datetime(2024, 2, 1),
           'E1': datetime.datetime(2024, 1, 2), 'E2': datetime.datetime(2024, 1, 3)}
@@ -105,9 +105,16 @@ for _c, _f in FORMULAS.items():
     except Exception as _e:
         TRANSLATE_ERRORS.append((_f, f'{type(_e).__name__}: {_e}'))
 
+# all formulas in ONE workbook as well: translation-time sharing between cells (sub-expression numbering, caches) is then in play
+try:
+    KALL = build.load_class(build.translate_formulas(FORMULAS, CONSTS), '_kall') if not TRANSLATE_ERRORS else None
+except Exception as _e:
+    KALL = None
+    TRANSLATE_ERRORS.append(('all formulas in one workbook', f'{type(_e).__name__}: {_e}'))
+
 def ev(cell, **ov):
     args = [{'uid': build.uid(0, a), 'value': v} for a, v in ov.items()]
-    return K[cell](args).exec_function_in(build.uid(0, cell))
+    return (KALL or K[cell])(args).exec_function_in(build.uid(0, cell))
 '''
 
 
@@ -115,7 +122,7 @@ def run(report, tier, seed):
     T = 90 if tier == 'quick' else 300
     s = Suite('C15', 'dates', PRE, timeout=T)
     years = [2023, 2024, 1900, 2000] if tier == 'quick' else [1900, 1999, 2000, 2001, 2023, 2024, 2100]
-    mbox, dbox = ((-12, 24), (-70, 70)) if tier == 'quick' else ((-24, 36), (-400, 400))
+    mbox, dbox = ((-24, 36), (-800, 800)) if tier == 'quick' else ((-60, 72), (-4000, 4000))
     enc = ('ExcelInPython._date',)
     for y in years:
         s.add(f'date_ordinal_{y}', 'm: int, d: int', f'{mbox[0]} <= m <= {mbox[1]} and {dbox[0]} <= d <= {dbox[1]}', f'''
@@ -220,6 +227,14 @@ def run(report, tier, seed):
         got = ev('F12', D1=a, D2=b, E1=a + datetime.timedelta(days=h1), E2=a + datetime.timedelta(days=h2))
         return got == ref_networkdays(o, o + n, [o + h1, o + h2])
     ''', encodes=fenc, requires="'F12' in K", timeout=T * 2)
+    s.add('f_networkdays_holiday_ranges_of_different_extent', 'n: int, h1: int, h3: int', '0 <= n <= 4 and 0 <= h1 <= 4 and 0 <= h3 <= 4', '''
+        a = datetime.datetime(2024, 1, 1)
+        b = a + datetime.timedelta(days=n)
+        o = ymd_ord(2024, 1, 1)
+        ov = dict(D1=a, D2=b, E1=a + datetime.timedelta(days=h1), E2=a + datetime.timedelta(days=9), E3=a + datetime.timedelta(days=h3))
+        return (ev('F12', **ov) == ref_networkdays(o, o + n, [o + h1]) and ev('F16', **ov) == ref_networkdays(o, o + n, [o + h1, o + h3])
+                and ev('F17', **ov) == ref_networkdays(o, o + n, [o + h1]))
+    ''', encodes=fenc, requires="'F12' in K and 'F16' in K and 'F17' in K", timeout=T * 2)
     report.bound(f'years {years} (concrete per condition); DATE month {mbox}, day {dbox}; EDATE/EOMONTH offsets +-{obox} on {ym}; '
                  f'DATEDIF year pairs {ypairs}, days <= {dmax}; NETWORKDAYS start day 1..14, length +-9/14, two holidays at symbolic offsets')
     report.assume('outside the claim: years other than the listed ones (each verdict reads: for that year, all months/days in the box), '
